@@ -55,6 +55,15 @@ class Module:
         self.tree._parent = None  # type: ignore[attr-defined]
         self._index: dict[str, ast.AST] = {}
         self._build(self.tree.body, "")
+        # locals renamed back to the reference names (a valid alpha-renaming: see alpha.py)
+        self.renamed: dict[str, dict] = {}
+        if os.environ.get("PGVERIF_NO_ALPHA") != "1":
+            from . import alpha
+            for q, n in list(self._index.items()):
+                if isinstance(n, (ast.FunctionDef, ast.AsyncFunctionDef)):
+                    m = alpha.normalise(rel, n, q)
+                    if m:
+                        self.renamed[q] = m
 
     def _build(self, body, prefix):
         for st in body:
@@ -183,7 +192,10 @@ def _match(pat, tgt, bind, metas):
         return True
     if type(pat) is not type(tgt):
         return False
-    if isinstance(pat, ast.BinOp) and isinstance(pat.op, ast.Mult) and isinstance(tgt.op, ast.Mult):
+    if isinstance(pat, ast.BinOp) and isinstance(tgt, ast.BinOp) and type(pat.op) is type(tgt.op) and (
+            isinstance(pat.op, ast.Mult) or (isinstance(pat.op, ast.Add) and not any(
+                isinstance(x, (ast.List, ast.Tuple, ast.JoinedStr)) or (isinstance(x, ast.Constant) and isinstance(x.value, str))
+                for x in (pat.left, pat.right)))):
         saved = dict(bind)
         if _match(pat.left, tgt.left, bind, metas) and _match(pat.right, tgt.right, bind, metas):
             return True
@@ -263,6 +275,63 @@ def _is_doc(st):
     return isinstance(st, ast.Expr) and isinstance(st.value, ast.Constant) and isinstance(st.value.value, str)
 
 
+def _context_literals(node):
+    """names that denote the same thing whatever the locals of the enclosing function are called: builtins, module-level
+    names, names imported inside the function, parameters of the enclosing function(s), self/cls.  None when the node
+    carries no parent links (cloned fragments): then only the declared metavariables are free."""
+    import builtins
+    n = node[0] if isinstance(node, list) and node else node
+    if not isinstance(n, ast.AST):
+        return None
+    lit = set(dir(builtins)) | {"self", "cls"}
+    seen_fn = False
+    p = n
+    top = None
+    while p is not None:
+        if isinstance(p, (ast.FunctionDef, ast.AsyncFunctionDef, ast.Lambda)):
+            seen_fn = True
+            a = p.args
+            for x in a.args + a.kwonlyargs + a.posonlyargs:
+                lit.add(x.arg)
+            if a.vararg:
+                lit.add(a.vararg.arg)
+            if a.kwarg:
+                lit.add(a.kwarg.arg)
+            if not isinstance(p, ast.Lambda):
+                for q in ast.walk(p):
+                    if isinstance(q, (ast.Import, ast.ImportFrom)):
+                        for al in q.names:
+                            lit.add((al.asname or al.name).split(".")[0])
+                    elif isinstance(q, (ast.FunctionDef, ast.ClassDef)) and q is not p:
+                        lit.add(q.name)
+        top = p
+        p = getattr(p, "_parent", None)
+    if not isinstance(top, ast.Module) or not seen_fn:
+        return None
+    for st in top.body:
+        if isinstance(st, (ast.Import, ast.ImportFrom)):
+            for al in st.names:
+                lit.add((al.asname or al.name).split(".")[0])
+        elif isinstance(st, (ast.FunctionDef, ast.ClassDef)):
+            lit.add(st.name)
+        elif isinstance(st, ast.Assign):
+            for t in st.targets:
+                for q in ast.walk(t):
+                    if isinstance(q, ast.Name):
+                        lit.add(q.id)
+    return lit
+
+
+def _metas_for(node, ptree, vars):
+    metas = set(vars or ())
+    for n in ast.walk(ptree):
+        if isinstance(n, ast.Name) and isinstance(n.ctx, ast.Store):
+            metas.add(n.id)
+    # locals used but not assigned by the fragment stay literal: renamed locals are mapped back to the reference names
+    # before any rule runs (alpha.py), and a literal name keeps the identity of the variable across rules
+    return metas
+
+
 def find(node, fragment: str, vars=None, bind=None):
     """find the statements of `fragment` as consecutive statements of some block under `node`.
     Names assigned inside the fragment (and those listed in `vars`) are metavariables: the match is up to a
@@ -271,10 +340,7 @@ def find(node, fragment: str, vars=None, bind=None):
     import textwrap
     ptree = ast.parse(textwrap.dedent(fragment))
     pst = [s_ for s_ in ptree.body]
-    metas = set(vars or ())
-    for n in ast.walk(ptree):
-        if isinstance(n, ast.Name) and isinstance(n.ctx, ast.Store):
-            metas.add(n.id)
+    metas = _metas_for(node, ptree, vars)
     if isinstance(node, ast.expr):
         if len(pst) == 1 and isinstance(pst[0], ast.Expr):
             b = dict(bind or {})
@@ -310,7 +376,7 @@ def same_expr(node, expected: str, vars=None, bind=None) -> bool:
         t = ast.parse(ast.unparse(node), mode="eval").body
     except SyntaxError:
         return False
-    return _match(e, t, dict(bind or {}), set(vars or ()))
+    return _match(e, t, dict(bind or {}), _metas_for(node, e, vars))
 
 
 def assigned_names(fn) -> set:
